@@ -107,7 +107,15 @@ def run(tier, seed):
                 p["srv"]["activations"] = 9 if capv in (0, 7) else 4
                 p["srv"]["capv"] = capv
                 p["srv"]["same_share"] = same
+                p["srv"]["srcv"] = k        # source descriptor of demand-active / deactivate-all: free text of any length, empty included
                 plans.append(p); k += 1
+        # the maxMCSPDUsize the server settles on: anything in the range the client offered (0x420 ..= 0xffff)
+        for j, mp in enumerate((0x420, 0x421, 4096, 0x7fff, 0x8000, 65528, 65529, 65534, 65535)):
+            p = json.loads(json.dumps(plans[(11 * j) % nconn]))
+            p["id"] = "maxpdu%d" % mp
+            p["srv"].setdefault("blocks", {})["max_pdu"] = mp
+            p["srv"]["blocks"].setdefault("version", [4, 0, 8, 0]); p["srv"]["blocks"].setdefault("core_opt", 2); p["srv"]["blocks"].setdefault("with_security", True); p["srv"]["blocks"].setdefault("order", ["core", "sec", "net"])
+            plans.append(p)
         # the Client Info PDU at every length around the PER boundary 0x7f / 0x80 / 0x81 (both variants of the PDU)
         for ext in (False, True):
             for n in range(0, 72, 1 if tier == "thorough" or ext else 2):
